@@ -32,6 +32,7 @@ from vgi_rpc.http._oauth_pkce import (
     _pack_oauth_cookie,
     _unpack_oauth_cookie,
     _validate_original_url,
+    _validate_return_to,
     make_cookie_authenticate,
 )
 
@@ -283,6 +284,101 @@ class TestValidateOriginalUrl:
     def test_empty_prefix(self) -> None:
         """Empty prefix allows any relative URL."""
         assert _validate_original_url("/anything", "") == "/anything"
+
+    @pytest.mark.parametrize(
+        "url",
+        [
+            "/\\evil.com",  # browsers treat "\" as "/": scheme-relative URL
+            "//evil.com",
+            "///evil.com",
+            "/\t/evil.com",  # browsers drop tabs and newlines
+            "/vgi/\\evil.com",
+            "\\\\evil.com",
+            "anything",
+            "/vgi/ x",
+            "/vgi/\x00",
+            "/vgi/\u00e9",
+        ],
+    )
+    def test_browser_ambiguous_url_rejected(self, url: str) -> None:
+        """URLs a browser would parse differently from urllib fall back to the prefix root."""
+        assert _validate_original_url(url, "") == "/"
+        assert _validate_original_url(url, "/vgi") == "/vgi"
+
+    @pytest.mark.parametrize(
+        "url",
+        ["/vgi/../x", "/vgi/..", "/vgi/./x", "/vgi/%2e%2e/x", "/vgi/%2E./x", "/vgi/.%2e", "/vgi/%2e/x"],
+    )
+    def test_dot_segments_rejected(self, url: str) -> None:
+        """Dot segments (which a browser resolves, possibly leaving the prefix) are refused."""
+        assert _validate_original_url(url, "/vgi") == "/vgi"
+        assert _validate_original_url(url, "") == "/"
+
+    def test_dots_inside_segment_kept(self) -> None:
+        """Dots that are not a whole path segment, and dots in the query, are untouched."""
+        assert _validate_original_url("/vgi/a..b/.c?x=../y", "/vgi") == "/vgi/a..b/.c?x=../y"
+
+
+class TestValidateReturnTo:
+    """Test _vgi_return_to validation against the origin allowlist."""
+
+    ALLOWED = frozenset(("https://cupola.query-farm.services", "https://app.example.com:8443"))
+
+    @pytest.mark.parametrize(
+        "url",
+        [
+            "https://cupola.query-farm.services",
+            "https://cupola.query-farm.services/",
+            "https://cupola.query-farm.services/a/b?c=d#e",
+            "https://cupola.query-farm.services:443/x",
+            "HTTPS://CUPOLA.Query-Farm.Services/x",
+            "https://app.example.com:8443/x",
+            "http://localhost/",
+            "http://localhost:5173/cb",
+            "http://127.0.0.1:3000/",
+        ],
+    )
+    def test_allowed(self, url: str) -> None:
+        """Allow-listed origins and http localhost are accepted unchanged."""
+        assert _validate_return_to(url, self.ALLOWED) == url
+
+    @pytest.mark.parametrize(
+        "url",
+        [
+            "",
+            "https://evil.com/",
+            "http://cupola.query-farm.services/",  # wrong scheme
+            "https://cupola.query-farm.services:8443/",  # wrong port
+            "https://app.example.com/",  # allow-listed only on :8443
+            "https://app.example.com:443/",
+            "https://localhost/",  # localhost is http-only
+            "https://evil.com\\@cupola.query-farm.services/",  # browsers: host is evil.com
+            "http://evil.com\\@localhost/",
+            "https://evil.com@cupola.query-farm.services/",  # userinfo
+            "https://cupola.query-farm.services@evil.com/",
+            "https://cupola.query-farm.services:abc/",
+            "https://cupola.query-farm.services:99999/",
+            " https://cupola.query-farm.services/",
+            "https://cupola.query-farm.services/ ",
+            "ht\ttps://cupola.query-farm.services/",
+            "https://cupola.query-farm.services\n/",
+            "https://cupola.query-farm.services/\u00e9",
+            "https://evil.com[cupola.query-farm.services]/",
+            "http://[::1]/",
+            "https:/cupola.query-farm.services/",
+            "//cupola.query-farm.services/",
+            "javascript://cupola.query-farm.services/%0aalert(1)",
+            "https://cupola.query-farm.services" + "/" + "a" * 2048,
+        ],
+    )
+    def test_rejected(self, url: str) -> None:
+        """Anything else yields the empty string."""
+        assert _validate_return_to(url, self.ALLOWED) == ""
+
+    def test_default_allowlist_is_empty(self) -> None:
+        """With no allowlist only http localhost is accepted."""
+        assert _validate_return_to("https://cupola.query-farm.services/") == ""
+        assert _validate_return_to("http://localhost:1234/") == "http://localhost:1234/"
 
 
 # ---------------------------------------------------------------------------
